@@ -144,10 +144,15 @@ def firstFlaw : List (Option Flaw) → Option Flaw
 
 def flawIf (c : Bool) (f : Flaw) : Option Flaw := if c then some f else none
 
-/-- the message-level violations in the documented order -/
-def messageFlaws (n : Nat) (structural : Option Flaw) (fs : Fields) : List (Option Flaw) :=
+/-- "an even tag is left over after every recognised field has been taken" — the code's own
+notion of an unrecognized even tag (`specEvenTag` is its declarative counterpart) -/
+def leftoverEvenTag (n : Nat) (fs : Fields) : Bool := hasEvenTag (parseFields n fs).fields
+
+/-- the message-level violations in the documented order; `even` decides the last one -/
+def messageFlaws (even : Nat → Fields → Bool) (n : Nat) (structural : Option Flaw) (fs : Fields) :
+    List (Option Flaw) :=
   [structural, flawIf (specSupplyOverflow fs) .supplyOverflow,
-   flawIf (specUnrecognizedFlag fs) .unrecognizedFlag, flawIf (specEvenTag n fs) .unrecognizedEvenTag]
+   flawIf (specUnrecognizedFlag fs) .unrecognizedFlag, flawIf (even n fs) .unrecognizedEvenTag]
 
 /-- the first message-structure error of an integer sequence (`none` = well-structured).
 Field part: a tag without value is `truncatedField`; after the body tag the integers are read
@@ -168,8 +173,9 @@ def structureFlaw (n : Nat) : List Nat → Option Flaw
   | [t] => if t = 0 then none else some .truncatedField
   | t :: v :: rest => if t = 0 then edictsFlaw n ⟨0, 0⟩ (v :: rest) else structureFlaw n rest
 
-/-- the flaw the property prescribes for a transaction (`none` = no violation) -/
-def specFlaw (scripts : List (List UInt8)) : Option Flaw :=
+/-- the flaw the property prescribes for a transaction (`none` = no violation): script error or
+non-push opcode, else bad varint, else the first of the message-level violations -/
+def specFlawWith (even : Nat → Fields → Bool) (scripts : List (List UInt8)) : Option Flaw :=
   match payload scripts with
   | none => none
   | some (.invalid f) => some f
@@ -177,6 +183,25 @@ def specFlaw (scripts : List (List UInt8)) : Option Flaw :=
     match integers p with
     | .error _ => some .varint
     | .ok ints =>
-      firstFlaw (messageFlaws scripts.length (structureFlaw scripts.length ints) (fieldPairs ints))
+      firstFlaw (messageFlaws even scripts.length (structureFlaw scripts.length ints) (fieldPairs ints))
+
+def specFlaw (scripts : List (List UInt8)) : Option Flaw := specFlawWith specEvenTag scripts
+
+/-- is the item a data push -/
+def _root_.Ord.Script.Item.isPush : Item → Bool
+  | .ok (.push _) => true
+  | _ => false
+
+def _root_.Ord.Script.Item.bytes : Item → List UInt8
+  | .ok (.push bs) => bs
+  | _ => []
+
+/-- the payload of a matching output by its first item that is not a data push: none = the
+concatenated pushes; an opcode = flaw `opcode`; a script error = flaw `invalidScript` -/
+def pushesResult (its : List Item) : Payload :=
+  match its.find? (fun i => !i.isPush) with
+  | none => .valid (its.flatMap Item.bytes)
+  | some (.ok (.op _)) => .invalid .opcode
+  | some _ => .invalid .invalidScript
 
 end Ord.Runestone
